@@ -203,7 +203,7 @@ func (p *c05) Prepare(t *testing.T, tier string, seed uint64) {
 			// the session's token (with and without hanging up when the server starts
 			// to answer), then lets the genuine message through: the rejected message
 			// must have ended the run (state backend: sqlite, which honours contexts)
-			for _, f := range []string{"inject-flip-then-forward", "inject-flip-hangup-then-forward"} {
+			for _, f := range []string{"inject-flip-then-forward", "inject-flip-hangup-then-forward", "inject-trunc-then-forward", "inject-trunc1-then-forward", "inject-empty-then-forward", "inject-garbage-then-forward"} {
 				for _, idx := range []int{0, 1} {
 					pl := base
 					pl.Fault, pl.Dir, pl.Index = f, "d2o", idx
@@ -494,7 +494,7 @@ func c05Run(env *Env, pl *C05Plan, base *c05Base) {
 	cfg := tunnelKey(pl.Kex)
 	spec := CipherSpecByName(pl.Cipher)
 	ctx := context.Background()
-	injectForward := strings.HasPrefix(pl.Fault, "inject-flip")
+	injectForward := strings.HasPrefix(pl.Fault, "inject-")
 	s, cleanupSql := NewStdSql(nil, cfg, map[string]bool{"owner1": injectForward})
 	defer cleanupSql()
 	injectedResp := 0
@@ -588,9 +588,22 @@ func c05Run(env *Env, pl *C05Plan, base *c05Base) {
 			return
 		}
 		switch pl.Fault {
-		case "inject-flip-then-forward", "inject-flip-hangup-then-forward":
+		case "inject-flip-then-forward", "inject-flip-hangup-then-forward", "inject-trunc-then-forward", "inject-trunc1-then-forward", "inject-empty-then-forward", "inject-garbage-then-forward":
 			b := append([]byte(nil), ev.Body...)
-			b[len(b)-3] ^= 0x10
+			switch {
+			case strings.HasPrefix(pl.Fault, "inject-flip"):
+				b[len(b)-3] ^= 0x10
+			case pl.Fault == "inject-trunc-then-forward":
+				b = b[:len(b)/2] // the message as it looks when its sender went away half way
+			case pl.Fault == "inject-trunc1-then-forward":
+				b = b[:len(b)-1]
+			case pl.Fault == "inject-empty-then-forward":
+				b = nil
+			default:
+				for i := range b {
+					b[i] = byte(i*37 + 11)
+				}
+			}
 			c := &RawClient{Net: s.Net, From: "adversary", To: "owner1", Token: ev.Token, HangUp: pl.Fault == "inject-flip-hangup-then-forward"}
 			tampered = true // before sending: the hook sees the injected request too
 			injectedResp, _, _ = c.Send(ev.MsgType, b)
@@ -701,7 +714,7 @@ func c05Run(env *Env, pl *C05Plan, base *c05Base) {
 			o.Violate("C05", "altered-message-accepted", "inject|"+spec.Name, "a bit-flipped copy of device message #%d was answered %d (%s/%s)", pl.Index, injectedResp, pl.Kex, pl.Cipher)
 		case terr == nil:
 			o.Class = "RUN-SURVIVED-REJECTION"
-			o.Violate("C05", "rejected-message-did-not-fail-the-run", strings.TrimPrefix(pl.Fault, "inject-flip-"), "the owner rejected a tampered message of this session (255), yet the same TO2 run went on and completed (%s/%s, %s)", pl.Kex, pl.Cipher, pl.Fault)
+			o.Violate("C05", "rejected-message-did-not-fail-the-run", strings.TrimPrefix(strings.TrimPrefix(pl.Fault, "inject-"), "flip-"), "the owner rejected a tampered message of this session (255), yet the same TO2 run went on and completed (%s/%s, %s)", pl.Kex, pl.Cipher, pl.Fault)
 		default:
 			o.Class = "rejected-and-run-failed"
 		}
